@@ -62,6 +62,7 @@ def run(tier, v):
             ("opt", 1 if tier == "thorough" else 1), ("fopt", 1), ("kind", 1)]
     maxopts = 4 if tier == "thorough" else 3
     n_cases = n_nontrivial = 0
+    texts = {}
     states = trans = 0
     samples = []
     for fam, stride in fams:
@@ -92,6 +93,13 @@ def run(tier, v):
             if got["r"] == "panic":
                 v.violation({"family": fam, "k": e["k"], "frame": vlib_hex(e["frame"]), "observed": "panic: " + got["e"], "expected": e["exp"]})
                 continue
+            if got["r"] == "ok":
+                for role_ in ("syn", "syn_ack"):
+                    x = got["res"].get(role_)
+                    if x:
+                        key = (json.dumps(x["obs"], sort_keys=True), x["text"], x["sigtext"])
+                        if key not in texts:
+                            texts[key] = {"id": len(texts), "obs": x["obs"], "text": x["text"], "sigtext": x["sigtext"], "frame": vlib_hex(e["frame"])}
             if matches(e["exp"], e["exp"]["wsize2"], got):
                 if len(samples) < 3 and e["exp"]["role"] != "none" and n_cases % 997 == 1:
                     samples.append({"family": fam, "frame": vlib_hex(e["frame"]), "role": e["exp"]["role"], "observation": e["exp"]["obs"][0]})
@@ -110,6 +118,17 @@ def run(tier, v):
             raise vlib.ToolError("harness answered %d of %d vectors (%s)" % (seen, len(exp), fam))
     if not samples:
         samples.append({"note": "no sample drawn"})
+    # ---- the rendered signature: every distinct (observation, text) pair seen above, judged by TLC against P0fVocab!PrintTcpSig
+    ttrace = os.path.join(wd, "text.trace.ndjson")
+    vlib.write_ndjson(ttrace, [{"id": t["id"], "obs": t["obs"], "text": t["text"], "sigtext": t["sigtext"]} for t in texts.values()])
+    rT = vlib.tlc("TV_C03T", pid=PID, workers=8, env={"TRACE": ttrace}, timeout=1800, heap="8g")
+    byid = {t["id"]: t for t in texts.values()}
+    for b in rT.lines.get("BAD", []):
+        t = byid[b["id"]]
+        v.violation({"part": "rendered signature", "frame": t["frame"], "observation": t["obs"], "p0f_text_of_the_observation": b["want"],
+                     "display_of_the_matching_observation": b["text"], "display_of_the_signature_handed_to_the_user": b["sigtext"]})
+    states += rT.distinct
+    trans += rT.generated
     # ---- window classification over all 65536 windows
     msss = [0, 99, 100, 536, 1220, 1400, 1440, 1448, 1460, 8960, 65535] if tier == "thorough" else [0, 99, 100, 1448, 1460]
     cases = [{"mss": m, "th": th, "ts": ts, "ver": ver} for m in msss for th in (0, 5, 40, 60) for ts in (False, True) for ver in (4, 6)]
